@@ -135,9 +135,22 @@ def build(tier, repo):
     back = [s for s in solve.body if isinstance(s, ast.If) and "tuple" in pf.norm_expr(s.test)]
     ok_back = False
     if back:
-        t = " ".join(ast.unparse(back[0]).split())
-        ok_back = re.search(r"for (\w+), ?(\w+) in iter\(vmap\.items\(\)\): \1\.value = \2\.value\(\)", t) and \
-            re.search(r"for (\w+), ?(\w+) in iter\(mmap\.items\(\)\): \1\.multiplier\.value = \2\.value\(\)", t)
+        def _maps_back(mapname, attr_chain):
+            """a loop `for a, b in [iter(]<mapname>.items()[)]` whose body stores b.value() into a.<attr_chain>"""
+            for lp in [x for x in ast.walk(back[0]) if isinstance(x, ast.For)]:
+                it = lp.iter
+                if isinstance(it, ast.Call) and pf.call_name(it) == "iter" and it.args:
+                    it = it.args[0]
+                if not (isinstance(it, ast.Call) and pf.call_name(it) == "%s.items" % mapname and isinstance(lp.target, ast.Tuple)
+                        and len(lp.target.elts) == 2 and all(isinstance(e_, ast.Name) for e_ in lp.target.elts)):
+                    continue
+                a_, b_ = lp.target.elts[0].id, lp.target.elts[1].id
+                for st_ in ast.walk(lp):
+                    if isinstance(st_, ast.Assign) and pf.norm_expr(st_.targets[0]) == "%s.%s" % (a_, attr_chain) \
+                            and pf.norm_expr(st_.value) == "%s.value()" % b_:
+                        return True
+            return False
+        ok_back = _maps_back("vmap", "value") and _maps_back("mmap", "multiplier.value")
     if ok_back:
         r4.ok("solve:back-substitution through vmap and mmap", m.where(back[0], solve))
     else:
